@@ -530,7 +530,7 @@ def generic_dev(loop, *endpoints, expect_closed=False):
     """§3.3a monitors: loop exception handler never called, no livelock, tasks alive (or all finished after close)"""
     if loop.livelock:
         return 'livelock'
-    if loop.exc:
+    if loop.errors():
         return 'loop-exception-handler-called'
     for ep in endpoints:
         for name in ('_sender_task', '_receiver_task'):
